@@ -98,7 +98,11 @@ class S(diff.DiffOperator):
             sm.resize(min(sm.nstate + abs(shift), nmax))
 
             # shift states (inplace)
-            sm.states = shift1d(sm.states, shift, inplace=True)
+            states = sm.states
+            if not getattr(states.flags, "writeable", True):
+                # stored states broadcast to the shape of the state matrix (read-only view)
+                states = states.copy()
+            sm.states = shift1d(states, shift, inplace=True)
 
         elif method == "shift-nd":
             # int nd-shift
